@@ -19,6 +19,8 @@ pub struct FlowArc {
 pub enum Event {
     /// a schedule accepted by the local search (between-steps callback)
     Step(Schedule),
+    /// the objective value the local search holds for that accepted schedule, level by level
+    StepObjective(Vec<String>),
     /// a named stage result of the solve pipeline
     Stage(String, Schedule),
     /// the transition the optimiser returned for one vehicle type (before it is put into a schedule)
@@ -41,6 +43,10 @@ pub fn record(event: Event) {
 
 pub fn record_step(schedule: &Schedule) {
     record(Event::Step(schedule.clone()));
+}
+
+pub fn record_step_objective(levels: Vec<String>) {
+    record(Event::StepObjective(levels));
 }
 
 pub fn record_stage(name: &str, schedule: &Schedule) {
